@@ -111,8 +111,11 @@ def general(rnd, nsteps=30, codec=None, U=None, cfg=None, nclients=None, feature
                 h = rnd.random()
                 if h < 0.35:
                     c.n += 1
-                    if rnd.random() < 0.7:
+                    x = rnd.random()
+                    if x < 0.6:
                         v = "s" + hx("%s_%d" % (c.name, c.n))
+                    elif x < 0.7:
+                        v = "l" + hx("%s_%d" % (c.name, c.n % 3))  # a slice value (not comparable with ==), sometimes set twice
                     else:
                         v = "i%d" % rnd.randint(-5, 1000)
                     sc.add("h set", rnd.choice(keys), v)
